@@ -29,6 +29,7 @@ fn handle(case: &Value) -> Value {
         "compile" => lang::compile(case),
         "convert" => circ::convert(case),
         "builder_run" => builder::builder_run(case),
+        "panic_run" => builder::panic_run(case),
         "compile_eval" => lang::compile_eval(case),
         "literal_check" => lit::literal_check(case),
         _ => json!({"error": format!("unknown op {op}")}),
